@@ -20,6 +20,7 @@ CONSTANTS
   Full = %(full)s
   NBig = %(nbig)d
   BigSeed = %(bigseed)d
+  NoCmps = {%(nocmps)s}
 INVARIANTS TypeOK LenBound Agree
 PROPERTIES Restricted SortPost Pure
 ACTION_CONSTRAINT Emit
@@ -77,7 +78,8 @@ def run(chk, tier):
             try:
                 gwd = os.path.join(wd, "g-" + name)
                 os.makedirs(gwd)
-                text = CFG % dict(c, vals=q(c["vals"]), modes=q(c["modes"]))
+                nocmps = q(["nz"]) if any(f["id"] == "F-SORT-NEGZERO" for f in chk.known) else ""
+                text = CFG % dict(c, vals=q(c["vals"]), modes=q(c["modes"]), nocmps=nocmps)
                 ini = init_state(c["cap"])
                 graphs[name] = (gwd,) + edges.build_graph("ArrayOps", text, gwd, ini, obs0=ini, workers=8, timeout=1700)
             except BaseException as e:      # noqa: B902 (re-raised below)
